@@ -106,6 +106,10 @@ PathSet(cert, t) == LET p == Path(cert, t) IN {p[i] : i \in 1..Len(p)}
 (*   reported : what it returned for the target when valid                 *)
 (*   signed   : what was signed (from the generator's own structured input)*)
 (***************************************************************************)
-ValidIffP(cert, rot, t, valid) == valid <=> SpecValid(cert, rot, t)
+\* The text speaks of the periods of the certificate's X.509 ELEMENTS; whether a root of trust that is
+\* itself outside its period may still anchor a chain is left open (the verify command checks the root
+\* separately, C08), so then a refusal is allowed as well - a false accept never is.
+ValidIffP(cert, rot, t, valid) == /\ valid => SpecValid(cert, rot, t)
+                                  /\ (SpecValid(cert, rot, t) /\ rot.time = "Valid") => valid
 ReportedExactP(valid, reported, signed) == valid => reported = signed
 =============================================================================
